@@ -87,7 +87,7 @@ func (x *Exec) eval(fc *frameCtx, st, old *State, e *CExpr, b binds) TV {
 		if v, ok := b[e.Name]; ok {
 			return v
 		}
-		if lb := x.loopBinds(fc); lb != nil {
+		if lb := x.loopBinds(fc); lb != nil && x.inOld == 0 {
 			if v, ok := lb[e.Name]; ok {
 				return v
 			}
@@ -332,6 +332,8 @@ func (x *Exec) evalCall(fc *frameCtx, st, old *State, e *CExpr, b binds) TV {
 	arg := func(i int) TV { return x.eval(fc, st, old, e.Args[i], b) }
 	switch e.Name {
 	case "old":
+		x.inOld++
+		defer func() { x.inOld-- }()
 		return x.eval(fc, old, old, e.Args[0], b)
 	case "len":
 		a := arg(0)
@@ -379,6 +381,23 @@ func (x *Exec) evalCall(fc *frameCtx, st, old *State, e *CExpr, b binds) TV {
 	case "cbarg":
 		h := x.heapGet(st, "G:ghost.cbarg", SArrII)
 		return TV{mkApp("select", SInt, h, mkInt(0)), tInt}
+	case "posof":
+		// the Position of a node held in an interface value (what GetPosition() returns: checked per kind)
+		iv, ok := arg(0).V.(IfaceV)
+		if !ok {
+			oos("posof() of a non-interface value")
+		}
+		h := x.heapGet(st, posKey, SArrII)
+		pt := positionPtrType(x.W)
+		v := mkApp("select", SInt, h, iv.Ref)
+		return TV{v, pt}
+	case "aserror":
+		// view an integer reference (e.g. cbarg()) as *errors.Error
+		pkg := x.W.PkgByPath[modPath+"/pkg/errors"]
+		if pkg == nil {
+			oos("aserror: pkg/errors not loaded")
+		}
+		return TV{x.refOf(arg(0)), types.NewPointer(pkg.Types.Scope().Lookup("Error").Type())}
 	case "strlen":
 		return TV{x.strLen(arg(0).V.(*Term)), tInt}
 	case "lower":
